@@ -44,6 +44,9 @@ type flashSpec struct {
 	// error and the app's ErrorHandler itself returns an error (fiber's fallback 500),
 	// "panic-recovered" = panics under the recover middleware
 	bMode string
+	// app configured with EnableSplittingOnParsers (comma-separated values are split when they
+	// are bound into slices; an old-input value is a string and must stay whole)
+	splitting bool
 }
 
 const routeParamTarget = "/users/42/list?sort=asc&tab=1"
@@ -105,7 +108,7 @@ type flashApp struct {
 
 func buildFlashApp(spec *flashSpec, lookKeys []string) *flashApp {
 	fa := &flashApp{rep: &bReport{}, lookKeys: lookKeys}
-	cfg := fiber.Config{ReadBufferSize: 16384}
+	cfg := fiber.Config{ReadBufferSize: 16384, EnableSplittingOnParsers: spec.splitting}
 	if spec.bMode == "error-handler-fails" {
 		cfg.ErrorHandler = func(fiber.Ctx, error) error { return errors.New("the error handler failed too") }
 	}
@@ -646,6 +649,10 @@ func runFlash(e *ev.Env) {
 	script("consumer-error-handler-fails", &flashSpec{msgs: []fmsg{{Key: "notice", Value: "saved", Level: 'A'}}, noLevel: []bool{false}, bMode: "error-handler-fails"}, getA)
 	script("consumer-returns-error", &flashSpec{msgs: []fmsg{{Key: "notice", Value: "saved", Level: 'A'}}, noLevel: []bool{false}, bMode: "error"}, getA)
 	script("consumer-panics-recovered", &flashSpec{msgs: []fmsg{{Key: "notice", Value: "saved", Level: 'A'}}, noLevel: []bool{false}, bMode: "panic-recovered"}, getA)
+	script("old-input-with-commas-splitting-on", &flashSpec{withInput: true, splitting: true},
+		[]byte("GET /a?tags=go,fiber,web&name=John HTTP/1.1\r\nHost: flash.example.com\r\n\r\n"))
+	script("old-input-form-with-commas-splitting-on", &flashSpec{withInput: true, splitting: true},
+		[]byte("POST /a HTTP/1.1\r\nHost: flash.example.com\r\nContent-Type: application/x-www-form-urlencoded\r\nContent-Length: 17\r\n\r\ntags=go,fiber,web"))
 	script("old-input-form-with-charset", &flashSpec{withInput: true},
 		[]byte("POST /a HTTP/1.1\r\nHost: flash.example.com\r\nContent-Type: application/x-www-form-urlencoded; charset=UTF-8\r\nContent-Length: 9\r\n\r\nname=John"))
 	script("status-307-post-followed-by-post", &flashSpec{msgs: []fmsg{{Key: "notice", Value: "saved", Level: 'A'}}, noLevel: []bool{false}, status: 307},
@@ -726,6 +733,7 @@ func runFlash(e *ev.Env) {
 			spec.pathB = routeParamTarget
 		}
 		spec.bMode = gen.Pick(r, []string{"", "", "", "error", "error-handler-fails", "panic-recovered"})
+		spec.splitting = r.Chance(1, 3)
 		reqA := []byte("GET " + spec.pathA + " HTTP/1.1\r\nHost: flash.example.com\r\n\r\n")
 		if (!wireSafe && r.Chance(1, 2)) || (wireSafe && r.Chance(1, 8)) {
 			spec.withInput = true
@@ -977,6 +985,12 @@ func inputRequest(r *gen.Rand, path string, must []string) []byte {
 		ks = append(ks, k)
 		vs = append(vs, anyString(r, r.Range(0, 20)))
 	}
+	commaValue := func() string {
+		if r.Chance(1, 3) {
+			return gen.Pick(r, []string{"go,fiber,web", "a,b", ",", "x,", ",y", "1,2,3", "a, b", "\"q,z\""})
+		}
+		return anyString(r, r.Range(0, 20))
+	}
 	for len(ks) < n {
 		k := r.Ident(1, 8)
 		if keys[k] {
@@ -984,7 +998,7 @@ func inputRequest(r *gen.Rand, path string, must []string) []byte {
 		}
 		keys[k] = true
 		ks = append(ks, k)
-		vs = append(vs, anyString(r, r.Range(0, 20)))
+		vs = append(vs, commaValue())
 	}
 	switch r.Intn(3) {
 	case 0:
